@@ -167,7 +167,7 @@ func classOf(problem string) string {
 
 func c16Proposal(c *fw.Ctx, e *Env, g *Gen, r *fw.Rand) {
 	obs := e.Last
-	denoms := []string{lab.Denom, lab.Denom2, "", " ", "NUND", "x", strings.Repeat("d", 129), "ibc/ABCDEF", "a b", "1nund"}
+	denoms := []string{lab.Denom, lab.Denom2, "", " ", "NUND", "x", strings.Repeat("d", 129), "ibc/ABCDEF", "a b", "1nund", " nund", "nund ", "\tnund\n", "ufoo\n", " " + lab.Denom2}
 	pickU := func(cur uint64) uint64 {
 		if r.Chance(45) {
 			return cur
@@ -213,7 +213,7 @@ func c16Proposal(c *fw.Ctx, e *Env, g *Gen, r *fw.Rand) {
 			}
 		}
 		if r.Chance(25) { // only malformed denominations are tried here; valid denom changes belong to C14
-			p.Denom = []string{"", " ", strings.Repeat("d", 129), "a b", "1nund"}[r.Intn(5)]
+			p.Denom = []string{"", " ", strings.Repeat("d", 129), "a b", "1nund", " nund", "nund ", "nund\n"}[r.Intn(8)]
 		}
 		problems = entParamProblems(p)
 		proposed = p.String()
